@@ -336,8 +336,27 @@ struct LHarness {
 			else { auto & o = order[keyOf[slot[i]]][protoOf[slot[i]]]; k += fmt("%d.%d.%d,", keyOf[slot[i]], protoOf[slot[i]], (int)(std::find(o.begin(), o.end(), slot[i]) - o.begin())); }
 		}
 		k += fmt("a%d", adds % 3);
+		// what the implementation enumerates per key and prototype, relative to the model's order (one token when they agree)
+		for(int key = 0; key < nKeys(); ++key) {
+			enumKey<void(int)>(k, key, P_INT);
+			enumKey<void(const std::string &)>(k, key, P_STR);
+		}
 		return k;
 	}
+	template <typename Proto>
+	void enumKey(std::string & k, int key, int proto) {
+		std::string ord; bool same = true; size_t pos = 0;
+		auto f = [&](const Handle & h, const std::function<Proto> &) {
+			int id = -1; for(size_t i = 0; i < handleOf.size(); ++i) if(handleOf[i].homoHandle.lock() == h.homoHandle.lock() && handleOf[i].index == h.index) id = (int)i;
+			if(pos >= order[key][proto].size() || order[key][proto][pos] != id) same = false;
+			ord += fmt("%d,", id); ++pos;
+		};
+		enumDo<Proto>(key, f, std::integral_constant<bool, Disp>());
+		if(pos != order[key][proto].size()) same = false;
+		k += same ? std::string("|=") : "|E:" + ord;
+	}
+	template <typename Proto, typename F> void enumDo(int key, F & f, std::true_type) { d->template forEach<Proto>(key, f); }
+	template <typename Proto, typename F> void enumDo(int, F & f, std::false_type) { l->template forEach<Proto>(f); }
 	void body(Bfs & b) {
 		ledger().reset();
 		for(auto & kk : order) for(auto & o : kk) o.clear();
